@@ -15,7 +15,8 @@ Two parts.
 (1) `Seg`, `buildTick`, `buildReqs`, `simulate`, `classify`: the scheduling semantics at the instrumented yield points.
 A thread is a list of segments (the code between two yield points, named by the label of the yield point it starts
 at); a segment may begin by taking the lock (`acq`) and may end by releasing it.  Which segments of the tick are under
-the lock and which entry points take it comes from the regenerated table (`OPM.Gen.LockTable`), not from the run.  A
+the lock and which entry points take it comes from the regenerated table (`OPM.Gen.LockTable`), not from the run; yield
+points nested inside a sub-call (a UOD command's exec function, the hardware read / write) inherit its flag.  A
 schedule is a list of thread choices; a thread whose next segment needs the lock while the other holds it is not
 enabled.  `classify` says for each request whether all of its effect ran before the tick took the lock (`before`),
 after the tick released it (`after`), or neither (`torn`).  The driver replays the schedules the harness ran on the
@@ -56,21 +57,34 @@ def setLastReleases : List Seg → List Seg
   | [s] => [{ s with releases := true }]
   | s :: rest => s :: setLastReleases rest
 
-/-- The tick thread: `<start>` (prologue), then the sub-calls seen in the run; the lock is taken in front of the first
-sub-call the table places under the lock and released at the end of the last one.  `none`: a label the table does not
-know, or an unlocked sub-call after a locked one. -/
-def buildTick (tickCalls : List (String × Bool)) (labels : List String) : Option (List Seg) :=
+/-- Lock flag of a yield label of the ticking thread: a sub-call of `Engine.tick` has the flag of the table; a yield
+point nested inside a sub-call (`nested`: inner label ↦ enclosing sub-call, e.g. a UOD command's exec function inside
+`command_manager.tick`, the hardware write inside `write_process_image`) has the flag of that sub-call. -/
+def tickFlag (tickCalls : List (String × Bool)) (nested : List (String × String)) (l : String) : Option Bool :=
+  match tickCalls.lookup l with
+  | some b => some b
+  | none =>
+    match nested.lookup l with
+    | some outer => tickCalls.lookup outer
+    | none => none
+
+/-- The tick thread: `<start>` (prologue), then the yield points seen in the run; the lock is taken in front of the
+first one the table places under the lock and released at the end of the last one of that stretch (a later stretch
+takes it again).  `none`: a label the table does not know. -/
+def buildTick (tickCalls : List (String × Bool)) (nested : List (String × String)) (labels : List String) :
+    Option (List Seg) :=
   let rec go (ls : List String) (inside : Bool) (acc : List Seg) : Option (List Seg × Bool) :=
     match ls with
     | [] => some (acc, inside)
     | l :: rest =>
-      match tickCalls.lookup l with
+      match tickFlag tickCalls nested l with
       | none => none
       | some true =>
         if inside then go rest true (acc ++ [{ label := l }])
         else go rest true (acc ++ [{ label := "acq", acquires := true }, { label := l }])
       | some false =>
-        if inside then none else go rest false (acc ++ [{ label := l }])
+        if inside then go rest false (setLastReleases acc ++ [{ label := l }])
+        else go rest false (acc ++ [{ label := l }])
   match go labels false [{ label := "<start>" }] with
   | none => none
   | some (segs, inside) => some (if inside then setLastReleases segs else segs)
